@@ -2,6 +2,8 @@ package ctfe
 
 import (
 	"bytes"
+	"encoding/base64"
+	"encoding/json"
 	"fmt"
 	"strings"
 
@@ -14,9 +16,10 @@ import (
 // expectation is the status class the property demands for a cause.
 type expectation struct {
 	cause  string
-	lo, hi int  // inclusive range of acceptable statuses
-	faulty bool // false: nothing went wrong for this operation
-	soft   bool // something went wrong that the front end may or may not survive: any status is accepted
+	lo, hi int          // inclusive range of acceptable statuses
+	faulty bool         // false: nothing went wrong for this operation
+	soft   bool         // something went wrong that the front end may or may not survive: any status is accepted
+	call   *BackendCall // soft expectations that still say what a 200 must carry
 }
 
 func exact(cause string, st int) expectation {
@@ -112,6 +115,10 @@ func (w *World) expect(op *Op) expectation {
 			case "proofs.empty":
 				// how older backends said "hash not found": caller-caused or backend fault, both accepted
 				return expectation{cause: cause, lo: 400, hi: 599, faulty: true}
+			case "proofs.second-garbled":
+				// the first proof of the reply is the honest one: the front end may serve it or refuse the reply, but a
+				// 200 carries that proof and nothing of the garbled one listed behind it
+				return expectation{cause: cause, lo: 200, hi: 599, faulty: true, soft: true, call: c}
 			}
 			if beyondTree(c) {
 				// the request asks beyond the current tree (caller-caused, 4xx) and the reply is
@@ -141,6 +148,9 @@ func oracleC08(w *World, op *Op) {
 	s.Probe("faulty." + strings.SplitN(e.cause, ":", 2)[0])
 	key := op.Kind + "/" + e.cause
 	if e.soft {
+		if e.call != nil && op.Status == 200 {
+			w.servedHonestProof(op, e, key)
+		}
 		return
 	}
 	if op.Status == 200 {
@@ -178,4 +188,39 @@ func firstLine(b []byte) string {
 		s = s[:160]
 	}
 	return strings.TrimSpace(s)
+}
+
+// servedHonestProof: a get-proof-by-hash 200 built from a reply whose first proof is honest and whose second is garbled
+// carries the honest proof's index and hashes.
+func (w *World) servedHonestProof(op *Op, e expectation, key string) {
+	hr, ok := e.call.Honest.(*trillian.GetInclusionProofByHashResponse)
+	if !ok || len(hr.Proof) == 0 {
+		return
+	}
+	var j struct {
+		LeafIndex *int64    `json:"leaf_index"`
+		AuditPath *[]string `json:"audit_path"`
+	}
+	bad := ""
+	if err := json.Unmarshal(op.RespBody, &j); err != nil || j.LeafIndex == nil {
+		bad = "body is not a get-proof-by-hash answer"
+	} else if *j.LeafIndex != hr.Proof[0].LeafIndex {
+		bad = fmt.Sprintf("leaf_index %d, the honest proof is for %d", *j.LeafIndex, hr.Proof[0].LeafIndex)
+	} else {
+		var path []string
+		if j.AuditPath != nil {
+			path = *j.AuditPath
+		}
+		if len(path) != len(hr.Proof[0].Hashes) {
+			bad = fmt.Sprintf("audit path of %d nodes, the honest proof has %d", len(path), len(hr.Proof[0].Hashes))
+		}
+		for i := 0; bad == "" && i < len(path); i++ {
+			if b, err := base64.StdEncoding.DecodeString(path[i]); err != nil || !bytes.Equal(b, hr.Proof[0].Hashes[i]) {
+				bad = fmt.Sprintf("audit path node %d is not the honest proof's (%d bytes)", i, len(b))
+			}
+		}
+	}
+	if bad != "" {
+		w.s.Violate("fault-as-success", key, "op%03d %s?%s answered 200 with something of the garbled proof listed second: %s; body %.160q", op.ID, op.Kind, op.Query, bad, op.RespBody)
+	}
 }
